@@ -86,6 +86,15 @@ ENTRIES = [
     M("W-gymnax-done-ignores-truncation", "C13", "C13.9", ("lerax/compatibility/gymnax.py", "        done = termination | truncation", "        done = termination")),
     M("W-gymnax-terminal-from-successor", "C13", "C13.9", ("lerax/compatibility/gymnax.py", "        return state.terminal", "        return jnp.array(False, dtype=bool)")),
     V("W-v-gymnax-step-unpacked-by-index", "C13", ("lerax/compatibility/gymnax.py", "        observation, env_state, reward, done, _ = self.env.step_env(\n            key, state.env_state, action, self.params\n        )", "        out = self.env.step_env(key, state.env_state, action, self.params)\n        observation, env_state, reward, done = out[0], out[1], out[2], out[3]")),
+    M("W-hopper-dt-divided", "C17", "C17.18", ("lerax/env/mujoco/hopper.py", "self.dt = jnp.array(mj_model.opt.timestep * self.frame_skip)", "self.dt = jnp.array(mj_model.opt.timestep / self.frame_skip)")),
+    M("W-hopper-init-qpos-from-qvel", "C17", "C17.18", ("lerax/env/mujoco/hopper.py", "self.init_qpos = jnp.asarray(mj_data.qpos).reshape(-1)", "self.init_qpos = jnp.asarray(mj_data.qvel).reshape(-1)")),
+    V("W-v-hopper-init-qpos-ravel", "C17", ("lerax/env/mujoco/hopper.py", "self.init_qpos = jnp.asarray(mj_data.qpos).reshape(-1)", "self.init_qpos = jnp.ravel(jnp.asarray(mj_data.qpos))")),
+    M("W-mc-logits-returns-probs", "C15", "C15.5", (DMC, "        return jnp.concatenate(tuple(d.logits for d in self.distribution), axis=-1)", "        return jnp.concatenate(tuple(d.probs for d in self.distribution), axis=-1)")),
+    M("W-sac-policy-logprob-mean", "C07", "C07.8", ("lerax/policy/sac/mlp.py", "        return None, action, log_prob.sum().squeeze()", "        return None, action, log_prob.mean().squeeze()")),
+    V("W-v-sac-policy-logprob-jnp-sum", "C07", ("lerax/policy/sac/mlp.py", "        return None, action, log_prob.sum().squeeze()", "        return None, action, jnp.squeeze(jnp.sum(log_prob))")),
+    M("W-sac-policy-std-without-exp", "C15", "C15.3", ("lerax/policy/sac/mlp.py", "        std = jnp.exp(log_std)", "        std = log_std")),
+    M("W-box-head-scale-without-exp", "C15", "C15.3", (PA, "                scale=jnp.exp(self.log_std),", "                scale=self.log_std,")),
+    M("W-filter-scan-default-reverse", ["C03", "C05"], ["C03.L", "C05.L"], ("lerax/utils.py", "    reverse: bool = False,", "    reverse: bool = True,")),
     # ---------------------------------------------------------------- restylings met in the behaviour-preserving round, and their broken twins
     V("R-v-discrete-guards-merged", "C14", ("lerax/space/discrete.py", "        if x is None:\n            return jnp.array(False)\n\n        if x.ndim != 0:\n            return jnp.array(False)\n        x = x.squeeze()", "        if x is None or x.ndim != 0:\n            return jnp.array(False)\n        x = x.squeeze()")),
     M("R-discrete-guards-merged-and", "C14", "C14.3", ("lerax/space/discrete.py", "        if x is None:\n            return jnp.array(False)\n\n        if x.ndim != 0:\n            return jnp.array(False)\n        x = x.squeeze()", "        if x is None and x.ndim != 0:\n            return jnp.array(False)\n        x = x.squeeze()")),
